@@ -7,12 +7,15 @@ from .ci_adapter import contains
 FIELDS = ["path", "mtime", "size", "volume_id", "type", "format", "arch", "disc_number", "disc_count", "checksums", "implant_md5",
           "bootable", "subvariant", "unified", "additional_variants"]
 PATHS = [{"p1": "Server/x86_64/iso/z-boot.iso", "p2": "Server/x86_64/iso/a-dvd.iso", "p3": "unified/m.iso", "p4": "Client/b.iso",
-          "p5": "Server/x86_64/iso/a-dvd2.iso", "p6": "0/first.iso", "p8": "x/p8.iso", "p9": "Server/x86_64/iso/twin.iso", "p10": "Server/x86_64/os/images/z-boot.iso"},
-         {"p1": "b.iso", "p2": "a.iso", "p3": "B.iso", "p4": "a/a.iso", "p5": "a.iso.2", "p6": "_.iso", "p8": "p8", "p9": "c.iso", "p10": "latest/b.iso"}]
+          "p5": "Server/x86_64/iso/a-dvd2.iso", "p6": "0/first.iso", "p8": "x/p8.iso", "p9": "Server/x86_64/iso/twin.iso", "p10": "Server/x86_64/os/images/z-boot.iso", "p11": "unified/n.iso"},
+         {"p1": "b.iso", "p2": "a.iso", "p3": "B.iso", "p4": "a/a.iso", "p5": "a.iso.2", "p6": "_.iso", "p8": "p8", "p9": "c.iso", "p10": "latest/b.iso", "p11": "C.iso"}]
 VARS = [{"V1": "Server", "V2": "Client", "V-3": "Server-optional"}, {"V1": "b", "V2": "a", "V-3": "a-b"}]
 AV = {"none": [], "one": ["Client"], "two": ["Workstation", "Client"]}
 COMPOSES = [dict(label=None, final=False, ctype="production", respin=0), dict(label="RC-2.1", final=True, ctype="nightly", respin=3),
-            dict(label="Beta-1.0", final=False, ctype="test", respin=10 ** 7)]
+            dict(label="Beta-1.0", final=False, ctype="test", respin=10 ** 7),
+            # the ID is free-form text: what follows the date need not be a type suffix the library knows
+            dict(label=None, final=False, ctype="production", respin=2, cid="Foo-1.0-20170217.production.2"),
+            dict(label="RC-1.0", final=True, ctype="nightly", respin=1, cid="Fedora-22-20150522.respin.1")]
 
 
 class Conc(object):
@@ -27,7 +30,7 @@ class Conc(object):
         self.types = sorted(IM.IMAGE_TYPE_FORMAT_MAPPING)
         self.fmap = IM.IMAGE_TYPE_FORMAT_MAPPING
         self.allfmt = IM.SUPPORTED_IMAGE_FORMATS
-        self.compose = COMPOSES[rot % 3]
+        self.compose = COMPOSES[rot % len(COMPOSES)]
 
     def fields(self, n, spec):
         j = int(n[1:])
@@ -62,7 +65,9 @@ def evaluate(case):
     conc = Conc(case.get("rot", 0))
     pool = case["pool"]
     m = Images()
-    samples.set_compose(m.compose, **conc.compose)
+    samples.set_compose(m.compose, **{k: v for k, v in conc.compose.items() if k != "cid"})
+    if conc.compose.get("cid"):
+        m.compose.id = conc.compose["cid"]
     objs = {}
     for n, spec in pool.items():
         img = Image(m)
@@ -70,6 +75,7 @@ def evaluate(case):
             setattr(img, k, v)
         objs[n] = img
     what = "manifest %s rot=%d" % (json.dumps(sorted((c["v"], c["a"], sorted(c["imgs"])) for c in case["obj"])), conc.rot)
+    refused = set()
     try:
         for c in sorted(case["obj"], key=lambda c: (c["a"], c["v"])):
             for n in sorted(c["imgs"], reverse=True):
@@ -77,8 +83,11 @@ def evaluate(case):
                     m.add(conc.vars[c["v"]], conc.arch[c["a"]], objs[n])
                 except ValueError:
                     # callers that file one image under several variants catch the refusal and go on; the same call again
-                    # must be refused again
-                    m.add(conc.vars[c["v"]], conc.arch[c["a"]], objs[n])
+                    # must be refused again - and the refused image is not in the manifest
+                    try:
+                        m.add(conc.vars[c["v"]], conc.arch[c["a"]], objs[n])
+                    except ValueError:
+                        refused.add((c["v"], c["a"], n))
         if conc.rot % 3 == 0:
             # an image withdrawn again: the emptied (variant, arch) set holds nothing to write
             tmp = Image(m)
@@ -97,8 +106,9 @@ def evaluate(case):
     exp = {}
     for v, arches in case["images"].items():
         for a, cell in arches.items():
-            lst = [render_img(d, conc, pool) for d in cell["bypath"]]
-            exp.setdefault(conc.vars[v], {})[conc.arch[a]] = sorted(lst, key=lambda d: d["path"])
+            lst = [render_img(d, conc, pool) for d in cell["bypath"] if (v, a, d["n"]) not in refused]
+            if lst:
+                exp.setdefault(conc.vars[v], {})[conc.arch[a]] = sorted(lst, key=lambda d: d["path"])
     gi = got["payload"]["images"]
     if {v: sorted(gi[v]) for v in gi} != {v: sorted(exp[v]) for v in exp}:
         fails.append("%s: cells written %s, expected %s" % (what, {v: sorted(gi[v]) for v in gi}, {v: sorted(exp[v]) for v in exp}))
@@ -121,7 +131,8 @@ def evaluate(case):
         m2.loads(text)
     except Exception as exc:
         return fails + ["%s: written manifest cannot be read back: %s: %s" % (what, type(exc).__name__, exc)]
-    cells = {(conc.vars[c["v"]], conc.arch[c["a"]]): c["imgs"] for c in case["obj"]}
+    cells = {(conc.vars[c["v"]], conc.arch[c["a"]]): [n for n in c["imgs"] if (c["v"], c["a"], n) not in refused] for c in case["obj"]}
+    cells = {k: v for k, v in cells.items() if v}
     got_cells = {(v, a) for v in m2.images for a in m2.images[v]}
     if got_cells != set(cells):
         fails.append("%s: cells after re-read %s, written %s" % (what, sorted(got_cells), sorted(cells)))
